@@ -26,6 +26,20 @@ def patterns(sig):
             out.append((P, mask))
     return out
 
+def patterns2(sig):
+    """two outputs, each the same variable as a different input (e.g. q = n and r = d in a qr division)"""
+    out = []
+    ptrs = [i for i, c in enumerate(sig) if c in "ZQF"]
+    for a in range(len(ptrs)):
+        for b in range(a + 1, len(ptrs)):
+            P1, P2 = ptrs[a], ptrs[b]
+            if sig[P1] != sig[P2]: continue
+            srcs = [i for i, d in enumerate(sig) if d == sig[P1].lower()]
+            for s1 in srcs:
+                for s2 in srcs:
+                    if s1 != s2: out.append((P1, 1 << s1, P2, 1 << s2))
+    return out
+
 def gen_ops(rng, tier, ctx=None):
     import vlib
     build = ctx.build if ctx else vlib.REPO
@@ -38,6 +52,10 @@ def gen_ops(rng, tier, ctx=None):
             for _ in range(reps):
                 toks = apigen.gen_args(rng, name, sig, P, mask)
                 yield "api_alias %s %x %x %s" % (sbytes(name), P, mask, " ".join(t for ts in toks for t in ts))
+        for (P1, m1, P2, m2) in patterns2(sig):
+            for _ in range(reps):
+                toks = apigen.gen_args(rng, name, sig, P1, m1, P2, m2)
+                yield "api_alias2 %s %x %x %x %x %s" % (sbytes(name), P1, m1, P2, m2, " ".join(t for ts in toks for t in ts))
 
 def nontrivial(line):
     return line if line.startswith("api_alias") else None
